@@ -390,4 +390,125 @@ theorem started_frozen_step {cfg : Cfg} {s s' : State} {e : Event} (hf : WFlags 
   all_goals (try (split <;> simp_all [sentTo]))
   all_goals (try grind [sentTo])
 
+/-! ### Progress building blocks -/
+
+/-- The acceptor's own remaining steps from phase `sending m i`. -/
+def accTail (cfg : Cfg) (m : Mode) (i : Nat) : List Event :=
+  (List.range' i (cfg.n - i)).map .accSend ++
+    (match m with
+     | .graceful => [.accWaitStart, .accWaitEnd .timeout, .accNotify, .accExit]
+     | .forced => [.accNotify, .accExit])
+
+theorem accTail_runs (cfg : Cfg) (s : State) (m : Mode) (i : Nat) (hp : s.acc.phase = .sending m i) (hi : i ≤ cfg.n) :
+    ∃ s', run cfg s (accTail cfg m i) = some s' ∧ s'.acc.phase = .exited := by
+  generalize hk : cfg.n - i = k
+  induction k generalizing s i with
+  | zero =>
+    have : i = cfg.n := by omega
+    subst this
+    cases m
+    · exact ⟨_, by simp [accTail, run, step, hp]; rfl, rfl⟩
+    · exact ⟨_, by simp [accTail, run, step, hp]; rfl, rfl⟩
+  | succ k ih =>
+    have hlt : i < cfg.n := by omega
+    let s₁ := (s.setAcc { s.acc with phase := .sending m (i + 1) }).setW i
+      { s.w i with cmds := (s.w i).cmds ++ [m] }
+    have hstep : step cfg s (.accSend i) = some s₁ := by
+      simp [step, hp, hlt, s₁]
+    obtain ⟨s', hr, hex⟩ := ih s₁ (i + 1) (by simp [s₁]) (by omega) (by omega)
+    refine ⟨s', ?_, hex⟩
+    have hn : cfg.n - i = (cfg.n - (i + 1)) + 1 := by omega
+    simp only [accTail, hn, List.range'_succ, List.map_cons, List.cons_append, run, hstep]
+    exact hr
+
+
+/-- The acceptor is listening, a `shutdown(m)` call is pending, the dispatch counters are in range and no
+    worker inbox is closed. -/
+def TakeReady (cfg : Cfg) (m : Mode) (s : State) : Prop :=
+  s.acc.phase = .listening ∧ m ∈ s.acc.calls ∧ s.acc.next < cfg.n ∧ s.acc.tries ≤ cfg.n ∧
+    ∀ w, (s.w w).closed = false
+
+theorem take_now (cfg : Cfg) (m : Mode) (s : State) (h : TakeReady cfg m s) (hc : s.acc.cur = none) :
+    ∃ s', run cfg s [.accShutdown m] = some s' ∧ s'.acc.phase = .sending m 0 := by
+  obtain ⟨h1, h2, _, _, _⟩ := h
+  simp [run, step, h1, h2, hc]
+
+theorem take_after_dispatch (cfg : Cfg) (m : Mode) (k : Nat) :
+    ∀ (s : State) (c : Nat), TakeReady cfg m s → s.acc.cur = some c → cfg.n - s.acc.tries = k →
+      ∃ es s', run cfg s es = some s' ∧ s'.acc.phase = .sending m 0 ∧ es.length ≤ k + 2 := by
+  induction k with
+  | zero =>
+    intro s c h hc hk
+    obtain ⟨h1, h2, h3, h4, h5⟩ := h
+    have ht : s.acc.tries = cfg.n := by omega
+    have hd : ∃ s₁, step cfg s (.dropConn c) = some s₁ ∧ TakeReady cfg m s₁ ∧ s₁.acc.cur = none := by
+      simp [step, h1, hc, ht, TakeReady, h2, h3, h5]
+    obtain ⟨s₁, g1, g2, g3⟩ := hd
+    obtain ⟨s', g4, g5⟩ := take_now cfg m s₁ g2 g3
+    exact ⟨[.dropConn c, .accShutdown m], s', by simpa [run, g1] using g4, g5, by simp⟩
+  | succ k ih =>
+    intro s c h hc hk
+    obtain ⟨h1, h2, h3, h4, h5⟩ := h
+    have ht : s.acc.tries < cfg.n := by omega
+    by_cases hq : (s.w s.acc.next).queue.length < cfg.cap
+    · have hd : ∃ s₁, step cfg s (.dispatch c s.acc.next .ok) = some s₁ ∧ TakeReady cfg m s₁ ∧ s₁.acc.cur = none := by
+        refine ⟨_, by simp [step, h1, hc, ht, h3, h5, hq]; rfl, ?_, by simp⟩
+        refine ⟨by simp, by simp [h2], by simp [h3], by simp [h4], fun w => ?_⟩
+        simp only [setC_w, setW_w, setAcc_w]
+        split <;> simp [h5]
+      obtain ⟨s₁, g1, g2, g3⟩ := hd
+      obtain ⟨s', g4, g5⟩ := take_now cfg m s₁ g2 g3
+      exact ⟨[.dispatch c s.acc.next .ok, .accShutdown m], s', by simpa [run, g1] using g4, g5, by simp⟩
+    · have hd : ∃ s₁, step cfg s (.dispatch c s.acc.next .full) = some s₁ ∧ TakeReady cfg m s₁ ∧
+          s₁.acc.cur = some c ∧ cfg.n - s₁.acc.tries = k := by
+        refine ⟨_, by simp [step, h1, hc, ht, h3, h5, Nat.le_of_not_lt hq]; rfl, ?_, by simp, by simp; omega⟩
+        exact ⟨by simp, by simp [h2], by simp; exact Nat.mod_lt _ (by omega), by simp; omega, fun w => by simp [h5]⟩
+      obtain ⟨s₁, g1, g2, g3, g4⟩ := hd
+      obtain ⟨es, s', g5, g6, g7⟩ := ih s₁ c g2 g3 g4
+      exact ⟨.dispatch c s.acc.next .full :: es, s', by simpa [run, g1] using g5, g6, by simp; omega⟩
+
+
+theorem drain_all (cfg : Cfg) (w : Nat) : ∀ (q : List Nat) (s : State), (s.w w).phase = .draining → (s.w w).queue = q →
+    ∃ es s', run cfg s es = some s' ∧ (s'.w w).phase = .drained := by
+  intro q
+  induction q with
+  | nil =>
+    intro s hp hq
+    exact ⟨[.wDrainEnd w], _, by simp [run, step, hp, hq]; rfl, by simp⟩
+  | cons c rest ih =>
+    intro s hp hq
+    have h1 : step cfg s (.wDrain w c) = some (startConn s w c rest) := by simp [step, hq, hp]
+    obtain ⟨es, s', g1, g2⟩ := ih (startConn s w c rest) (by simp [startConn, hp]) (by simp [startConn])
+    exact ⟨.wDrain w c :: es, s', by simpa [run, h1] using g1, g2⟩
+
+theorem poll_all (cfg : Cfg) (w : Nat) : ∀ (l : List Nat) (s : State), (s.w w).phase = .drained →
+    (s.w w).signalled = false → (∀ c, c ∈ l → (s.c c).worker = w) →
+    ∃ es s', run cfg s es = some s' ∧ s'.w = s.w ∧
+      (∀ c, (s.c c).phase ≠ .spawned → (s'.c c).phase ≠ .spawned) ∧ (∀ c, c ∈ l → (s'.c c).phase ≠ .spawned) := by
+  intro l
+  induction l with
+  | nil => intro s _ _ _; exact ⟨[], s, rfl, rfl, fun _ h => h, fun _ h => by cases h⟩
+  | cons c l ih =>
+    intro s hp hs hw
+    by_cases hc : (s.c c).phase = .spawned
+    · have hwc := hw c (by simp)
+      have h1 : step cfg s (.cPoll c) = some (s.setC c { s.c c with phase := .idle }) := by
+        simp [step, hc, workerAlive, hwc, hp, hs]
+      obtain ⟨es, s', g1, g2, g3, g4⟩ := ih (s.setC c { s.c c with phase := .idle }) (by simpa using hp)
+        (by simpa using hs) (fun c' hc' => by
+          simp only [setC_c]; split
+          · rename_i h; subst h; exact hwc
+          · exact hw c' (by simp [hc']))
+      refine ⟨.cPoll c :: es, s', by simpa [run, h1] using g1, by simpa using g2, fun c' h' => ?_, fun c' hc' => ?_⟩
+      · apply g3; simp only [setC_c]; split <;> simp_all
+      · cases hc' with
+        | head => apply g3; simp
+        | tail _ hm => exact g4 c' hm
+    · obtain ⟨es, s', g1, g2, g3, g4⟩ := ih s hp hs (fun c' hc' => hw c' (by simp [hc']))
+      refine ⟨es, s', g1, g2, g3, fun c' hc' => ?_⟩
+      cases hc' with
+      | head => exact g3 c hc
+      | tail _ hm => exact g4 c' hm
+
+
 end Pxv.Server
